@@ -1,6 +1,11 @@
-"""C07 - event authorisation: Auth.tla <-> Allowed()."""
+"""C07 - event authorisation: Auth.tla <-> Allowed().
+
+spec -> code: every scenario of the ten Auth_gen.tla families is concretised and the real verdict compared.
+code -> spec: seeded random scenarios over the full vocabulary are run through Allowed(), logged, and the
+trace is validated by Auth_trace.tla."""
 from vlib import auth
 
 
 def run(ctx):
     auth.run_families(ctx, "c07", auth.FAMILIES_ALL)
+    auth.record_and_validate(ctx, 4000 if ctx.tier == "quick" else 60000)
